@@ -16,6 +16,8 @@ def run(m):
     hit = [l for l in fails if m['expect'] in l]
     return m['id'], bool(hit), len(fails), errs[:2]
 bad = 0
+if subprocess.run(['git','-C','/repo','status','--porcelain','--untracked-files=no'],capture_output=True,text=True).stdout.strip():
+    print('refusing to run: /repo has uncommitted changes (this script applies patches and reverts the working tree)'); sys.exit(2)
 # seeded changes (multi-file patches from /verif/seeded): applied to /repo one at a time, then reverted
 SEEDS = json.load(open('/verif/selftest/seeds.json'))
 if sel: SEEDS = [m for m in SEEDS if m['id'] in sel]
